@@ -287,13 +287,17 @@ const (
 	SiteSaveEntry        int32 = 5 // SaveSnapshot entered
 	SiteSaveExit         int32 = 6 // SaveSnapshot wrote everything and is about to return
 	SiteAnySync          int32 = 7 // entry of any Sync
-	SiteLast             int32 = 7
+	// log store boundary: SaveSnapshots returned for a snapshot whose index is above the commit
+	// index of the last hard state that SaveRaftState made durable
+	SiteSnapshotRecordedAheadOfCommit int32 = 8
+	SiteLast                          int32 = 8
 )
 
 // SiteName names a crash site.
 func SiteName(p int32) string {
 	return [...]string{"arbitrary-moment", "before-SaveRaftState", "after-SaveRaftState", "entry-of-first-Sync-after-RecoverFromSnapshot",
-		"exit-of-RecoverFromSnapshot", "entry-of-SaveSnapshot", "exit-of-SaveSnapshot", "entry-of-Sync"}[p]
+		"exit-of-RecoverFromSnapshot", "entry-of-SaveSnapshot", "exit-of-SaveSnapshot", "entry-of-Sync",
+		"snapshot-record-durable-ahead-of-the-durable-commit-index"}[p]
 }
 
 func (s *SMInst) site(p int32) {
